@@ -17,8 +17,8 @@ import (
 	"go/parser"
 	"go/token"
 	"path/filepath"
-	"sort"
 	"reflect"
+	"sort"
 	"strconv"
 	"strings"
 )
